@@ -90,7 +90,9 @@ unsafe impl GlobalAlloc for Counting {
 #[global_allocator]
 static A: Counting = Counting;
 
-const VERIF: &str = "/verif";
+fn verif_root() -> String {
+    std::env::var("VERIF_ROOT").ok().filter(|s| !s.is_empty()).unwrap_or_else(|| "/verif".to_string())
+}
 
 #[derive(Clone, Copy, Debug, PartialEq, Eq)]
 enum Act {
@@ -179,7 +181,7 @@ unsafe fn take_string(w: &mut World, p: *mut c_char, expect: &str, what: &str) {
 
 unsafe fn set_profile(w: &mut World, p: u8) {
     let cfg = w.cfg;
-    let tiny = CString::new(format!("{}/fixtures/micro_db", VERIF)).unwrap();
+    let tiny = CString::new(format!("{}/fixtures/micro_db", verif_root())).unwrap();
     let phonetic = CString::new("avro_phonetic").unwrap();
     let probhat = CString::new("/repo/data/Probhat.json").unwrap();
     let bad = CString::new("/nonexistent/layout.json").unwrap();
@@ -591,7 +593,7 @@ fn replay(file: &str) -> i32 {
     let v: serde_json::Value = serde_json::from_str(&std::fs::read_to_string(file).expect("read")).expect("json");
     let seq: Vec<Act> = v["sequence"].as_array().expect("sequence").iter().filter_map(|s| parse_act(s.as_str()?)).collect();
     println!("sequence: {:?}", seq);
-    let xdg = format!("{}/.build/run/ffi-replay-{}", VERIF, std::process::id());
+    let xdg = format!("{}/.build/run/ffi-replay-{}", verif_root(), std::process::id());
     std::fs::create_dir_all(&xdg).unwrap();
     let _ = execute(&[Act::CfgNew(0), Act::CtxNew, Act::Key(0), Act::Read(0)], &xdg, 4);
     let o = execute(&seq, &xdg, 4);
